@@ -56,9 +56,10 @@ def labelsL (r : Ref) : List Tree → Bool
 end
 
 mutual
-/-- paragraphs never contain paragraphs -/
+/-- paragraphs never contain paragraphs **or sectioning units**: every child of a paragraph-level node
+    has a level strictly above paragraph level -/
 def parNoPar : Tree → Bool
-  | .node it _ kids => (it.level == parLevel → kids.all fun k => k.it.level != parLevel) && parNoParL kids
+  | .node it _ kids => (it.level == parLevel → kids.all fun k => decide (parLevel < k.it.level)) && parNoParL kids
 def parNoParL : List Tree → Bool
   | [] => true
   | k :: ks => parNoPar k && parNoParL ks
